@@ -182,6 +182,47 @@ def _execute(job):
         shutil.rmtree(d, ignore_errors=True)
 
 
+def _execute_bytes(job):
+    """Byte-level family: the input file is already in normal form for the options but stored with CRLF (or CR-free LF) line
+    ends; every in-place entry point must leave exactly the bytes the text API returns (LF), like the stdout entry points do."""
+    from flowmark import reformat_text
+    from flowmark.reformat_api import reformat_file, reformat_files
+    ep, u, eol = job
+    d = os.path.realpath(tempfile.mkdtemp(prefix="c15b-"))
+    cwd0 = os.getcwd()
+    try:
+        os.chdir(d)
+        ref = reformat_text(PROBE, **kwargs(u))
+        assert reformat_text(ref, **kwargs(u)) == ref or True
+        data = ref.replace("\n", eol).encode()
+        open("a.md", "wb").write(data)
+        fl = flags(u)
+        rc, out = 0, None
+        if ep == "cli_file_stdout":
+            rc, so, _ = _cli_subproc(fl + ["a.md"], "", d)
+            out = so.encode()
+        elif ep == "cli_file_inplace_nobackup":
+            rc, _, _ = _cli_inproc(fl + ["--inplace", "--nobackup", "a.md"], "")
+            out = open("a.md", "rb").read()
+        elif ep == "cli_file_inplace":
+            rc, _, _ = _cli_inproc(fl + ["--inplace", "a.md"], "")
+            out = open("a.md", "rb").read()
+        elif ep == "api_file_inplace":
+            reformat_file("a.md", None, inplace=True, nobackup=True, **kwargs(u))
+            out = open("a.md", "rb").read()
+        elif ep == "api_files_inplace":
+            reformat_files(["a.md"], inplace=True, nobackup=True, **kwargs(u))
+            out = open("a.md", "rb").read()
+        # expected: what the text API gives for the text a reader of the file gets (universal newlines), i.e. LF bytes
+        exp = reformat_text(data.decode().replace("\r\n", "\n"), **kwargs(u)).encode()
+        return dict(out=dig(out or b""), ref=dig(exp), rc=rc, same=(out == exp), head=(out or b"")[:80].decode(errors="replace"))
+    except BaseException as e:  # noqa: BLE001
+        return dict(out="EXC", ref="-", rc=98, same=False, head=repr(e)[:200])
+    finally:
+        os.chdir(cwd0)
+        shutil.rmtree(d, ignore_errors=True)
+
+
 MODEL_MUTANTS = ["swap_sem_cleanups", "files_drops_ls", "auto_misses_ellipses"]
 
 
@@ -249,6 +290,25 @@ def run(tier: str) -> int:
         if not agree:
             clause = "UsageError" if t["ep"].startswith("err_") else ("Agree" if not same else "ExitCode" if rc != 0 else "NothingElseWritten" if not fs_ok else "PerFileResult")
             chk.violation(clause, metas[id_])
+    # ---- byte-level family: already-formatted files with CRLF / LF line ends ----
+    upoints = sorted({json.dumps(p["u"], sort_keys=True) for p in points if not p["ep"].startswith(("err_", "cli_auto"))})
+    bjobs = [(ep, json.loads(u), eol) for k, u in enumerate(upoints) if (k + chk.seed) % (6 if tier == "quick" else 1) == 0
+             for ep in ("cli_file_inplace", "cli_file_inplace_nobackup", "api_file_inplace", "api_files_inplace") for eol in ("\r\n", "\n")]
+    btr = []
+    for tid2, (job, r) in enumerate(zip(bjobs, pmap(_execute_bytes, bjobs, chunksize=10)), 10 ** 6):
+        chk.evaluations += 1
+        chk.nontriv(("bytes", job[0], json.dumps(job[1], sort_keys=True), job[2]))
+        btr.append(dict(id=tid2, ep=job[0], u=job[1], ref=r["ref"], out=r["out"], rc=int(r["rc"]), fs_ok=True, side=True))
+        metas[tid2] = dict(ep=job[0], u=job[1], expected=job[1], subprocess=False, rc=r["rc"], stderr="", changed=[], flags=flags(job[1]),
+                           output_head=r["head"], family="already formatted file stored with " + ("CRLF" if job[2] == "\r\n" else "LF") + " line ends")
+    brep, g2, d2 = tlc.validate_traces("EntryTrace", btr, cfg=tlc.cfg_text(spec="TraceSpec", constants=dict(Widths=widths, Mutant="none", DoDump=False),
+                                                                          invariants=["Report"]))
+    chk.states += d2
+    chk.transitions += g2
+    chk.traces += len(btr)
+    for t in btr:
+        if not brep[t["id"]][3]:
+            chk.violation("Agree(bytes on disk)", metas[t["id"]])
     for id_ in list(metas)[:: max(1, len(metas) // 5)][:5]:
         chk.sample({k: metas[id_][k] for k in ("ep", "flags", "rc", "subprocess")})
     chk.exhaustive = True
